@@ -165,6 +165,19 @@ def check_complex_sqrt(ctx: Check, tree: Tree, te: TermEval) -> None:
                 txt = unparse(arg) + "".join(unparse(d.value) for d in rd.closure(rd.uses(arg)) if d.value is not None)
                 ok = "self.get_definition()" in txt
     direct = any("self.get_definition()" in unparse(n) for n in walk_function(npc.node))
+    # ... on EVERY path: a branch that prints something else for one printer (e.g. numpy.lib.scimath.sqrt, whose
+    # result dtype depends on the data: float64 if no input is negative) is a second definition
+    other = []
+    for r in [r for r in walk_function(npc.node, nested=False) if isinstance(r, ast.Return) and r.value is not None]:
+        v = r.value
+        via_helper = isinstance(v, ast.Call) and isinstance(v.func, ast.Attribute) and isinstance(v.func.value, ast.Name) and v.func.value.id == "self"
+        via_print = isinstance(v, ast.Call) and isinstance(v.func, ast.Attribute) and v.func.attr == "_print" and "get_definition()" in unparse(v)
+        if not (via_helper or via_print):
+            other.append(unparse(r)[:70])
+    if other:
+        ctx.violation("R-ONEDEF", f"{cls.qual}._numpycode::second-definition", tree.loc(npc.node),
+                      f"ComplexSqrt._numpycode has a path that does not print get_definition(): {other}",
+                      "e.g. numpy.lib.scimath.sqrt returns float64 unless some input is negative; code that relies on the complex result (log of a negative number in chew_mandelstam_s_wave) then yields NaN above threshold")
     ctx.verdict(ok or direct, "R-ONEDEF", f"{cls.qual}._numpycode::prints-definition", tree.loc(npc.node), "ComplexSqrt._numpycode prints self.get_definition() (one definition for symbolic and numerical form)")
     # _pythoncode: the same two-branch function
     pyc = cls.methods.get("_pythoncode")
